@@ -34,13 +34,13 @@ def main():
     res = {"property": meta["property"], "title": meta.get("title"), "checks": {}}
     demo = os.path.join(d, "demo.py")
     if os.path.exists(demo):
-        res["demo_exit_clean"] = sh("cd %s && /venv/bin/python %s" % (REPO, demo), timeout=300).returncode
+        res["demo_exit_clean"] = sh("cd %s && PYTHONPATH=%s/harness/netCDF4_standin /venv/bin/python %s" % (REPO, VERIF, demo), timeout=300).returncode
     r = sh("git -C %s apply %s" % (REPO, os.path.join(d, "patch.diff")))
     if r.returncode != 0:
         print("patch does not apply:", r.stdout); sys.exit(2)
     try:
         if os.path.exists(demo):
-            r = sh("cd %s && /venv/bin/python %s" % (REPO, demo), timeout=300)
+            r = sh("cd %s && PYTHONPATH=%s/harness/netCDF4_standin /venv/bin/python %s" % (REPO, VERIF, demo), timeout=300)
             res["demo_exit_patched"] = r.returncode
         if "--notests" not in args:
             r = sh("cd %s && ./baseline.sh 2>&1 | tail -1" % VERIF, timeout=1800)
